@@ -317,7 +317,9 @@ def rule_R7(ctx, prj, fns):
     ctx.rule("R7", "termination: every while loop on the analysis path has a variant (an unconditional step of a variable "
                    "of its condition, an unconditional pop of the collection it tests, or a worklist guarded by a marked "
                    "set), and every recursive function there is in the table of structurally decreasing recursions or "
-                   "carries a visited guard", floor=4)
+                   "carries a visited guard", floor=0)
+    if len(fns) < 30:
+        raise AnalysisError(f"only {len(fns)} functions on the analysis path (about 100 confirmed by reading): the call graph from scan/check is broken")
     for fi in fns:
         for w in [x for x in fi.walk() if isinstance(x, ast.While)]:
             key = f"{fi.local}/while {unparse(w.test)[:50]}"
